@@ -65,6 +65,15 @@ def base_queries(tier):
     for n in ((0, 1, 2) if quick else (0, 1, 2, 3)):
         qs.append(_q("base/adler/direct/n%d" % n, ["H_ADLER", "N=%d" % n, A], units=ADL, fam="base/adler", core=(n <= 1),
                      weight=1 + 50 * max(0, n - 2), timeout=None if quick else 900))
+    # n = 3..6: exhaustive case split on the two quotients of adler32_base's final 64-bit "% 65521" (CA in {0,1}, CB in 0..n+1);
+    # base/adler/cases/n decides that the rectangle covers every input.  Without the split: n=3 150 s, n>=4 undecided.
+    for n in ((4,) if quick else (3, 4, 5, 6)):
+        qs.append(_q("base/adler/cases/n%d" % n, ["H_ADLER_CASES", "N=%d" % n, A], units=[], fam="base/adler", core=True))
+        for ca in (0, 1):
+            for cb in range(0, n + 2):
+                qs.append(_q("base/adler/direct/n%d_qa%d_qb%d" % (n, ca, cb), ["H_ADLER", "N=%d" % n, A, "CA=%d" % ca, "CB=%d" % cb], units=ADL,
+                             fam="base/adler", core=(n == 4 and (ca, cb) in ((0, 0), (1, 4))), witness=((ca, cb) in ((0, 0), (1, n))),
+                             weight=(n - 2) ** 3 * (1 + ca + cb), flags=CADICAL, timeout=None if quick else 1200))
     for (n, s) in ([(2, 1), (3, 1), (3, 2)] if quick else [(2, 1), (3, 1), (3, 2), (4, 1), (4, 2), (4, 3)]):
         qs.append(_q("base/adler/split/n%d_s%d" % (n, s), ["H_ADLER_SPLIT", "N=%d" % n, "S=%d" % s, A], units=ADL, fam="base/adler",
                      core=((n, s) == (2, 1)), weight=5 * n * n, timeout=None if quick else 900))
@@ -79,12 +88,13 @@ def base_queries(tier):
                 "direct": "n <= 3 (quick; crc64: 2) / 4 (thorough; crc64: 3, two flavours 4), seed + bytes symbolic",
                 "split": "quick: (n,s) in {(4,2),(8,3)} (+(16,8) for crc32_gzip_refl, crc16_t10dif_copy) for 16/32-bit, (2,1) (+(3,2) for two flavours) for crc64; thorough: n in {1,2,3,4,5,8,12,16} x s in {0,1,n/2,n-1,n} "
                          "for 16/32-bit, n <= 8 for crc64 (cost grows steeply: duplicated 256x64-bit table look-ups)",
-                "adler": "direct n <= 2 (thorough 3), composition n <= 3 (thorough 4), seed halves symbolic < 65521; bam1 n <= 2 (3)",
+                "adler": "direct n <= 2 unsplit, n = 4 (thorough 3..6) by an exhaustive split on the quotients of the two final reductions; composition n <= 3 "
+                         "(thorough 4); seed halves symbolic < 65521; bam1 n <= 2 (3)",
                 "anchor": "\"123456789\" against the reveng catalogue values listed in spec/crc_spec.h; *_norm flavours of iso/jones/rocksoft have no "
                           "catalogue entry and are tied to the refl flavour by the bit-reversal duality (base/dual, spec-only, symbolic)"},
         stubs=["base/adler/bam1: igzip.c linked with harness/C19/link_stubs.c (unreachable compression kernels; isal_adler32 = adler32_base as in igzip_base_aliases.c)"],
         assumptions=["Adler-32 running values have both halves < 65521 (for other seeds adler32_base reduces them, the per-byte definition does not)",
                      "spec_adler32_cs (conditional subtraction) == spec_adler32 (modulo): decided per step (base/adler/cs_step) and extended by induction"],
         outside=["crc n > 16 for composition, > 4 for direct equality (the argument step lemma + composition => all n is an induction outside the solver)",
-                 "Adler-32 n > 4 and the deferred-modulo schedule (MAX_ADLER_BUF = 2^28 bytes): 64-bit dividers against per-byte reduction are not decided beyond n = 3..4"])
+                 "Adler-32 n > 6 and the deferred-modulo schedule (MAX_ADLER_BUF = 2^28 bytes)"])
     return qs, info
